@@ -79,7 +79,7 @@ hx(const void *p, size_t n)
 	o[w++] = '>';
 	o[w]   = 0;
 	if (n > 36) {
-		snprintf(o + w, 16, "+%zu", n - 36);
+		snprintf(o + w, 23, "+%zu", n - 36);
 	}
 	return o;
 }
@@ -994,7 +994,7 @@ g_body(det_t *d, dbody_t *b)
 	if (base == NULL && vf_chance(r, 1, 30)) {
 		// long or very large body made of a repeat pattern (a tcp frame
 		// of more than one segment when > 64 KB)
-		uint32_t n = vf_chance(r, 1, 5) ? vf_range(r, 66000, 200000) : g_longlen(r, 60, 700);
+		uint32_t n = vf_chance(r, 1, 10) ? vf_range(r, 66000, 150000) : g_longlen(r, 60, 700);
 		b->b       = d_alloc(d, n + 4);
 		fill_pattern(d, b->b, n, (int) vf_below(r, 3));
 		b->len = n;
